@@ -914,9 +914,11 @@ def run(res, rng, tier):
         fam = c['_fam']
         res.count('family/' + fam.split('-')[0])
         if c['op'] == 'rt':
+            nrec = 0
             for r in c['_recs']:
                 if r.get('_refuse'):
                     continue
+                nrec += 1
                 n = rec_size(r)
                 res.count('record-size/' + size_class(n))
                 res.count('seq/' + ('zero' if r['L'] == 0 else 'odd' if r['L'] % 2 else 'even'))
@@ -928,6 +930,8 @@ def run(res, rng, tier):
                     if a['t'] == 'B' and not a['l']:
                         res.count('aux/B-empty')
                 res.nontrivial.add(('rt', tuple(r['name']), r['L'], len(r['aux']), len(r['cigar']), r['pos'], n))
+            # every record of a round-trip file is one evaluation (written, read back under three Omit modes, judged)
+            res.evaluations += max(0, nrec - 1)
             res.extra['traces_validated_against_impl'] = res.extra.get('traces_validated_against_impl', 0) + 1
         elif c['op'] == 'seq':
             res.nontrivial.add(('seq', tuple(c['s'])))
